@@ -181,6 +181,156 @@ def widen_cases(ck, src, before, after, exprs, meta):
         meta.append((src, tid, sel_b, sel_a, local))
 
 
+def cid_stream(ck, srcs):
+    """Tie for the cid-level inference of Model/Sorts.v (Section Cid): the hook verif:infer_sorts (/repo commit 366a622) logs
+    the query and the slice of the context sort inference reads, at entry and at exit.  The model is run on the entry state; compared
+    with the exit state: every emitted Sort (column ids and directions) and every Select of every CTE and of the main relation (but
+    the main relation's final ORDER BY, which alias_last_sorting re-targets: directions only), the cid_redirects of every
+    relation instance, and the id generator."""
+    PRE = "verif:infer_sorts "
+    ans = harness("log", [{"src": s, "target": "sql.sqlite", "want": [], "msg_prefix": PRE.strip()} for s in srcs])
+    exprs, meta = [], []
+    seen, okc = False, 0
+
+    def key(k):
+        return "[" + "; ".join("(%d%%nat, %s)" % (c, "true" if d else "false") for c, d in k) + "]"
+
+    def items(p):
+        out = []
+        for t in p:
+            if isinstance(t, str):
+                out.append("CReset" if t in ("Distinct",) else "COther")
+                continue
+            (n, v), = t.items()
+            if n == "From":
+                if "ref" not in v:
+                    return None
+                out.append("CFrom %d%%nat %d%%nat" % (v["ref"], v["riid"]))
+            elif n == "Join":
+                out.append("CJoin")
+            elif n == "Select":
+                out.append("CSelect [%s]" % "; ".join("%d%%nat" % c for c in v))
+            elif n == "Sort":
+                out.append("CSort %s" % key(v))
+            elif n == "Take":
+                out.append("CTake %s %s" % ("true" if not v["partition"] else "false", key(v["sort"])))
+            elif n == "DistinctOn":
+                out.append("CDistinctOn")
+            elif n == "Aggregate":
+                out.append("CReset")
+            else:
+                out.append("COther")
+        return out
+
+    def shape(p):
+        """what is compared of a pipeline: Sorts (ids + directions), Selects, and the kinds in between"""
+        out = []
+        for t in p:
+            if isinstance(t, str):
+                out.append(t if t not in ("Filter",) else "Other")
+                continue
+            (n, v), = t.items()
+            if n == "Sort":
+                out.append(("Sort", [(c, bool(d)) for c, d in v]))
+            elif n == "Select":
+                out.append(("Select", list(v)))
+            else:
+                out.append(n)
+        return out
+
+    def mshape(v):
+        out = []
+        for it in v:
+            if isinstance(it, tuple):
+                if it[0] == "CSort":
+                    out.append(("Sort", [(c, bool(d)) for c, d in it[1]]))
+                elif it[0] == "CSelect":
+                    out.append(("Select", list(it[1])))
+                elif it[0] == "CFrom":
+                    out.append("From")
+                elif it[0] == "CTake":
+                    out.append("Take")
+            else:
+                out.append({"CReset": "Reset", "CJoin": "Join", "CDistinctOn": "DistinctOn", "COther": "Other"}[it])
+        return out
+
+    def norm(sh):
+        return [("Reset" if x in ("Distinct", "Aggregate") else "Other" if isinstance(x, str) and x not in ("From", "Join", "Take", "DistinctOn", "Reset") else x) for x in sh]
+    for src, a in zip(srcs, ans):
+        if "ok" in a:
+            okc += 1
+        ph = {}
+        for e in a.get("entries", []):
+            m = e.get("Message") or ""
+            if m.startswith(PRE):
+                seen = True
+                d = json.loads(m[len(PRE):])
+                ph[d["phase"]] = d
+        if "entry" not in ph or "exit" not in ph:
+            continue
+        en, ex = ph["entry"], ph["exit"]
+        q = en["query"]
+        ctes = []
+        bad = False
+        for c in q["ctes"]:
+            if "normal" not in c or c["normal"] is None:
+                bad = True
+                break
+            it = items(c["normal"])
+            if it is None:
+                bad = True
+                break
+            ctes.append((c["tid"], it))
+        mi = items(q["main"]) if isinstance(q["main"], list) else None
+        if bad or mi is None:
+            ck.stat("cid", "unsupported-shape")
+            continue
+        insts = "[%s]" % "; ".join("(%d%%nat, %d%%nat)" % (i["riid"], i["source"]) for i in en["ctx"]["relation_instances"])
+        rds = "[%s]" % "; ".join("(%d%%nat, [%s])" % (i["riid"], "; ".join("(%d%%nat, %d%%nat)" % (s_, t_) for s_, t_ in i["redirects"])) for i in en["ctx"]["relation_instances"])
+        exprs.append("(let '(cs, os, o, fin) := fold_query %s %s %d%%nat [%s] [%s] in ((os, o), (map snd fin, (cs_rds cs, cs_next cs))))" % (
+            insts, rds, en["ctx"]["next_cid"], "; ".join("(%d%%nat, [%s])" % (tid, "; ".join(it)) for tid, it in ctes), "; ".join(mi)))
+        meta.append((src, en, ex))
+    if okc and not seen:
+        ck.violation("no verif:infer_sorts line in any of %d successful compiles: the hook of infer_sorts is missing" % okc, {"kind": "cid-hook-missing"}, no_input=True)
+        return
+    header = "From Coq Require Import List Bool Arith.\nFrom PV Require Import Model.Sorts.\nImport ListNotations.\n"
+    vals = coq_eval(header, exprs) if exprs else []
+    agree = 0
+    for (src, en, ex), v in zip(meta, vals):
+        os, o, (fin, (mrds, mnext)) = v
+        ck.count("cid", src)
+        problems = []
+        xq = ex["query"]
+        for (tid, mo), xc in zip(os, xq["ctes"]):
+            if norm(mshape(mo)) != norm(shape(xc["normal"])):
+                problems.append("CTE %d" % tid)
+        xm = shape(xq["main"])
+        if not xm or not (isinstance(xm[-1], tuple) and xm[-1][0] == "Sort"):
+            problems.append("main relation has no final Sort")
+        else:
+            if norm(mshape(o)) != norm(xm[:-1]):
+                problems.append("main relation")
+            if [bool(d) for d in fin] != [d for _, d in xm[-1][1]]:
+                problems.append("directions of the final ORDER BY")
+        xr = {i["riid"]: sorted(map(tuple, i["redirects"])) for i in ex["ctx"]["relation_instances"]}
+        mr = {r: sorted(map(tuple, rd)) for r, rd in mrds}
+        if {k: v_ for k, v_ in xr.items() if v_} != {k: v_ for k, v_ in mr.items() if v_}:
+            problems.append("cid_redirects")
+        if mnext != ex["ctx"]["next_cid"]:
+            problems.append("id generator (%d vs %d)" % (mnext, ex["ctx"]["next_cid"]))
+        inherited = any(isinstance(x, tuple) and x[0] == "CFrom" and any(t == x[1] for t, _ in os) for _, mo in os for x in mo) or bool(os)
+        ck.stat("cid", "with-ctes" if os else "no-cte")
+        if mnext != en["ctx"]["next_cid"]:
+            ck.stat("cid", "widening-added-columns")
+        if problems:
+            ck.disagreement("sort inference differs from the cid-level model of Model/Sorts.v (%s) on %s" % (", ".join(problems), src.replace("\n", " | ")[:200]),
+                            {"prql": src, "model": str(v)[:700], "exit": json.dumps(ex["query"])[:700], "exit_redirects": xr, "exit_next": ex["ctx"]["next_cid"]}, lambda c: None)
+        else:
+            agree += 1
+    ck.coverage["cid_programs"] = len(meta)
+    ck.coverage["cid_agree"] = agree
+
+
 def flatten_items(pg):
     """abstract program -> Coq `list (pitem (list bool))` (Model/Flatten.v); None when a shape is not modelled"""
     def k(keys):
